@@ -320,6 +320,28 @@ def nestD_stream(ctx, n):
                        found_input=True, signature={"raises": type(e).__name__, "site": "nesting-partials"})
             continue
         ctx.count(("nestD", repr(desc), repr(struct)[:200], second), nontrivial=True)
+        # the same writings applied BY HAND: every top-level item ('*' groups as one operator, sub-lists member by
+        # member) called on the state matrix, in place or out of place -- states and every partial must equal the
+        # flat application
+        try:
+            def by_hand(items, sm, inplace):
+                for it in items:
+                    if isinstance(it, list):
+                        sm = by_hand(it, sm, inplace)
+                    elif not isinstance(it, epg.probe.Probe):
+                        sm = it(sm, inplace=inplace)
+                return sm
+            mode = rng.random() < 0.5
+            bh1 = dprog.snap_d(by_hand(build_nested(struct), epg.StateMatrix(), mode))
+            bh2 = dprog.snap_d(by_hand(ops, epg.StateMatrix(), mode))
+        except Exception as e:
+            ctx.report("nested / grouped operators applied by hand raised %s: %s" % (type(e).__name__, str(e)[:200]), {"ops": desc, "structure": repr(struct)[:400]},
+                       found_input=True, signature={"raises": type(e).__name__, "site": "group-call"})
+            continue
+        if bh1[0] != bh2[0] or not same_partials(bh1[1], bh2[1]) or not same_partials(bh1[2], bh2[2]):
+            ctx.report("'*' groups called as operators give different states/partials than their members applied in order (first order: %s vs %s)"
+                       % (sorted(bh1[1]), sorted(bh2[1])), {"ops": desc, "structure": repr(struct)[:400], "inplace": mode}, found_input=True,
+                       signature={"why": "group-call-partials"})
         if j1.shape != j2.shape or not np.allclose(j1, j2, rtol=1e-12, atol=1e-14):
             ctx.report("nested/grouped sequence returns a different Jacobian than the flat one", {"ops": desc, "structure": repr(struct)[:400]}, found_input=True,
                        signature={"why": "nesting-jacobian"})
